@@ -364,10 +364,16 @@ pub fn campaigns(ctx: &Ctx) -> Stats {
         let big_e: [f64; 8] = [2147483648.0, 2147483649.0, 4294967296.0, 8589934592.0, -2147483649.0, -4294967296.0, 1e10, 3e9];
         st.merge(ctx.run_indexed("powf-exponents-beyond-i32", big_e.len() as u64 * 2, None, |i| {
             let e = big_e[(i / 2) as usize];
+            // only exponents the build's float type represents exactly
+            if IS_F32 && (e as f32) as f64 != e {
+                return None;
+            }
             // 1 -+ 2^-33 and 1 -+ 2^-34 are exact in f64 (the f32 build keeps the bases at exactly +-1)
             let near = |s: f64, k: i32| if IS_F32 { s } else { s * (1.0 - 2f64.powi(-k)) };
             let vals = if i % 2 == 0 { vec![-1.0, 1.0, near(1.0, 33), near(-1.0, 33)] } else { vec![near(1.0, 34), -1.0, near(-1.0, 32), 1.0] };
-            Some(Case7::F(FwdCase { op: Powf(e), leaves: vec![LeafSpec { dims: vec![2, 2], vals, tracked: i % 4 == 1 }], force_exact: None, second_is_view_of_first: None }))
+            // the library and the reference call the same power function on the same arguments: compared bitwise
+            // (the general tolerance scales with the exponent, the condition number of x^e, and would accept -1 for 1)
+            Some(Case7::F(FwdCase { op: Powf(e), leaves: vec![LeafSpec { dims: vec![2, 2], vals, tracked: i % 4 == 1 }], force_exact: Some(true), second_is_view_of_first: None }))
         }));
         // more than 2^16 elements
         let big: Vec<(Vec<usize>, OpKind)> = vec![
